@@ -26,7 +26,7 @@ import random
 import time
 
 from .. import gen, views
-from ..c12_common import quiet, canon, flat_obs, diff_obs, fmt_diff, decorate, sample_meta, run_tasks
+from ..c12_common import quiet, canon, flat_obs, diff_obs, fmt_diff, decorate, sample_meta, run_tasks, collect_failures
 
 KNOWN_KEYS = set()
 
@@ -755,37 +755,79 @@ def _run_task(task):
     raise ValueError(t)
 
 
+FIXED_MODELS = {"quick": [0, 1, 2, 3], "thorough": [0, 1, 2, 3, 4, 5, 6, 7]}          # seed-independent (quick is a subset)
+PAIRS = {"quick": [(0, 1), (1, 0), (2, 3), (3, 1)],
+         "thorough": [(0, 1), (1, 0), (2, 3), (3, 1), (0, 2), (2, 0), (1, 3), (4, 1), (2, 4), (0, 0)]}
+
+
+def witness(task):
+    """stable, seed-independent identification of a case of the FIXED part"""
+    t = task["part"]
+    if t == "static":
+        return f"static|m{task['mseed']}|ctx{int(task['ctx'])}|{task['kind']}"
+    if t == "reaction":
+        return f"reaction|m{task['mseed']}|{task['mode']}|{task['op']}|{task['i']},{task['j']}"
+    if t == "metabolite":
+        return f"metabolite|m{task['mseed']}|{task['mode']}|{task['i']}"
+    return f"edit|m{task['mseed']}|ctx{int(task['ctx'])}|{task['kind']}|{task['side']}|{'+'.join(task['edits'])}|e{task['eseed']}"
+
+
 def tasks_for(tier, seed):
+    """FIXED part (task['fixed'] = True; the same for every seed): static checks A1-A3 and part B (reaction / metabolite
+    operations) on FIXED_MODELS.  SEEDED part: the edit cases A4 (every single edit + seeded depth-2 sequences) and the static
+    checks on models drawn from the seed (model numbers >= 1000, disjoint from the fixed ones)."""
     rng = random.Random(f"C12-run-{seed}")
     n_models = 4 if tier == "quick" else 40
     n_pairs = 260 if tier == "quick" else 20000
-    mseeds = [seed * 1000 + k for k in range(n_models)]
     names = sorted(edits())
     tasks = []
-    for ms in mseeds:
+    # ---- fixed
+    for ms in FIXED_MODELS[tier]:
         for ctx in (False, True):
             for kind in KINDS:
-                tasks.append({"part": "static", "mseed": ms, "ctx": ctx, "kind": kind})
-                for side in ("copy", "original"):
-                    for nm in names:
-                        tasks.append({"part": "edit", "mseed": ms, "ctx": ctx, "kind": kind, "side": side, "edits": [nm],
-                                      "eseed": seed})
-    for k in range(n_pairs):
-        tasks.append({"part": "edit", "mseed": rng.choice(mseeds), "ctx": rng.random() < 0.5, "kind": rng.choice(KINDS),
-                      "side": rng.choice(["copy", "original"]), "edits": [rng.choice(names), rng.choice(names)],
-                      "eseed": seed * 100000 + k})
-    for ms in mseeds:
+                tasks.append({"part": "static", "mseed": ms, "ctx": ctx, "kind": kind, "fixed": True})
         for mode in MODES:
             for op in OPS:
-                pairs = [(0, 1), (1, 0), (2, 3), (3, 1)] if tier == "quick" else [(a, b) for a in range(5) for b in range(5)]
+                pairs = PAIRS[tier]
                 if op == "copy" or op.startswith("__mul__"):
                     pairs = sorted({(a, 0) for a, _ in pairs})
                 for i, j in pairs:
-                    tasks.append({"part": "reaction", "mseed": ms, "mode": mode, "op": op, "i": i, "j": j})
+                    tasks.append({"part": "reaction", "mseed": ms, "mode": mode, "op": op, "i": i, "j": j, "fixed": True})
         for mode in ("in-model", "in-model-context"):
             for i in range(3):
-                tasks.append({"part": "metabolite", "mseed": ms, "mode": mode, "i": i})
+                tasks.append({"part": "metabolite", "mseed": ms, "mode": mode, "i": i, "fixed": True})
+    # ---- seeded
+    mseeds = [(seed + 1) * 1000 + k for k in range(n_models)]
+    for ms in mseeds:
+        for ctx in (False, True):
+            for kind in KINDS:
+                tasks.append({"part": "static", "mseed": ms, "ctx": ctx, "kind": kind, "fixed": False})
+                for side in ("copy", "original"):
+                    for nm in names:
+                        tasks.append({"part": "edit", "mseed": ms, "ctx": ctx, "kind": kind, "side": side, "edits": [nm],
+                                      "eseed": seed, "fixed": False})
+    for k in range(n_pairs):
+        tasks.append({"part": "edit", "mseed": rng.choice(mseeds), "ctx": rng.random() < 0.5, "kind": rng.choice(KINDS),
+                      "side": rng.choice(["copy", "original"]), "edits": [rng.choice(names), rng.choice(names)],
+                      "eseed": seed * 100000 + k, "fixed": False})
     return tasks
+
+
+def execute(tasks, tier="quick", seed=0):
+    order = list(range(len(tasks)))
+    random.Random(seed).shuffle(order)
+    shuffled = [tasks[i] for i in order]
+    items, distinct = [], set()
+    for task, (status, val) in zip(shuffled, run_tasks(_run_task, shuffled, nproc=16, task_timeout=300 if tier == "quick" else 900)):
+        rp = {k: v for k, v in task.items() if k != "fixed"}
+        if status == "ok":
+            _, f, nontrivial = val
+            if nontrivial:
+                distinct.add(witness(task))
+        else:  # the worker process died / hung / raised outside the guarded part: a finding, not a harness hiccup
+            f = {f"{task.get('kind') or 'reaction'}:{status}": f"task {task} ended with {status}: {val}"}
+        items.append((task["fixed"], witness(task), rp, f))
+    return collect_failures(items), len(items), len(distinct)
 
 
 def run(tier="quick", seed=0):
@@ -793,51 +835,32 @@ def run(tier="quick", seed=0):
     import cobra  # noqa: F401  (import before the fork)
     t0 = time.time()
     tasks = tasks_for(tier, seed)
-    order = list(range(len(tasks)))
-    random.Random(seed).shuffle(order)
-    shuffled = [tasks[i] for i in order]
-    results = []
-    for task, (status, val) in zip(shuffled, run_tasks(_run_task, shuffled, nproc=16, task_timeout=300 if tier == "quick" else 900)):
-        if status == "ok":
-            results.append(val)
-        else:  # the worker process died / hung / raised outside the guarded part: a finding, not a harness hiccup
-            results.append((task, {f"{task.get('kind') or 'reaction'}:{status}": f"task {task} ended with {status}: {val}"}, False))
-    failures = {}
-    counts = {}
-    distinct = set()
-    for task, f, nontrivial in results:
-        if nontrivial:
-            distinct.add(repr(sorted(task.items())))
-        for k, text in f.items():
-            counts[k] = counts.get(k, 0) + 1
-            cur = failures.get(k)
-            size = len(task.get("edits", ())) * 10 + (1 if task.get("ctx") else 0)
-            if cur is None or size < cur[0]:
-                failures[k] = (size, text, task)
-    out_f = [{"key": k, "failure": f"{text} [{counts[k]} case(s) with this key]", "replay": dict(task, key=k)}
-             for k, (_, text, task) in sorted(failures.items())]
+    out_f, n, distinct = execute(tasks, tier, seed)
     n_by = {}
     for t in tasks:
-        n_by[t["part"]] = n_by.get(t["part"], 0) + 1
+        k = ("fixed:" if t["fixed"] else "seeded:") + t["part"]
+        n_by[k] = n_by.get(k, 0) + 1
     return {
-        "evaluations": len(results),
-        "distinct_nontrivial": len(distinct),
+        "evaluations": n,
+        "distinct_nontrivial": distinct,
         "rule": "case = (generated decorated model, context open at copy time?, copy kind, edited side, edit sequence) or "
                 "(model, mode, reaction operation, operand pair); distinct by construction (different tuple); non-trivial = the "
                 "edit sequence changed the flat observation of the edited model (or is an optimisation/analysis), every static "
-                "and reaction/metabolite case counts",
+                "and reaction/metabolite case counts. Fixed part: static + reaction/metabolite cases on models "
+                f"{FIXED_MODELS[tier]} (every failing witness reported); seeded part: edit cases and static cases on models "
+                "drawn from the seed (one entry per class, witness random:<class>)",
         "bounds": {"models": len({t["mseed"] for t in tasks}), "metabolites": "2-4", "reactions": "2-5 + exchanges",
                    "copy_kinds": list(KINDS), "edit_catalogue": len(edits()), "depth": 2, "by_part": n_by,
                    "seconds": round(time.time() - t0, 1)},
         "exhaustive": False,
-        "samples": [tasks[0], tasks[len(tasks) // 2], tasks[-1]],
+        "samples": [{k: v for k, v in tasks[i].items() if k != "fixed"} for i in (0, len(tasks) // 2, len(tasks) - 1)],
         "failures": out_f,
     }
 
 
 def replay(payload):
     quiet()
-    task = {k: v for k, v in payload.items() if k != "key"}
+    task = {k: v for k, v in payload.items() if k not in ("key", "witness", "fixed")}
     _, f, _ = _run_task(task)
     key = payload.get("key")
     if key is None:
